@@ -155,14 +155,14 @@ var expectProbes = map[string][]string{
 	"C06": {"back-reference to a node created for an earlier value", "string crossing the chunk size", "binary crossing the chunk size", "lock-step mode (writer waits for the reader's ack)",
 		"reader blocked mid-value", "reader blocked / short read in the middle of a multi-byte rune", "stream with more than 16 classes (long-form instances)", "read through bufio (size 16)", "short read", "write cut into segments"},
 	"C11": {"abort landed after a class definition was registered (instance write)", "abort landed after a ref was registered", "abort landed inside a class definition", "history contained a call aborted half-way",
-		"probe stream depends on state of an earlier message", "write-side abort index enumerated exhaustively", "read-side cut offset enumerated exhaustively"},
+		"probe stream depends on state of an earlier message", "write-side abort index enumerated exhaustively", "read-side cut offset enumerated exhaustively", "continued read failed at the ordinary end of the stream"},
 	"C12": {"switch inside writeObject / class-table lookup", "switch inside encodeString / encodeBinary", "switch inside writeMap", "switch inside pool Get / Return", "instances obtained from a shared pool", ">= 32 tasks",
 		"input with 12..24 distinct classes in one message"},
 	"C14": {"every cut/reset offset of the stream enumerated", "hostile structured stream (DAG / deep nesting / reference fan-in)", "valid stream uses: type reference", "damaged stream answered with an error",
 		"read after an erroring streaming read returned", "flip", "set", "drop", "dup", "swap", "insert", "noise", "cut", "reset"},
 	"C15": {"fault on a class-definition write", "fault on an instance tag / object write", "fault on a list header / element", "fault on a map header / terminator", "fault on a null / scalar write",
 		"fault on a back-reference", "fault on the last write of the stream", "fault on a write of a later value of a stream"},
-	"C17": {"task preempted inside objectPool.Get", "task preempted inside objectPool.Return", "pool of size 0", ">= 32 tasks", "a returned object was handed out again", "holder abandoned its objects (never returns them)", "task stalled"},
+	"C17": {"task preempted inside objectPool.Get", "task preempted inside objectPool.Return", "pool of size 0", ">= 32 tasks", "a returned object was handed out again", "holder abandoned its objects (never returns them)", "task stalled", "clock jump (caller idle for 1 ms .. 45 min of simulated time)"},
 }
 
 var (
